@@ -1,6 +1,7 @@
 ; FFV0 number encodings, transcribed from spec/iconvg-spec-v0.md, section "Numbers".
 ; All functions read from a byte array `a` at position `p`; `avail` is the number of bytes available from p.
 ; include: base
+; provides: numbers
 
 ; "the low two bits of the first byte indicate the encoding length. If the least significant bit of the
 ;  first byte is 0, the number is encoded in 1 byte. Otherwise, it is encoded in 2 or 4 bytes depending on
